@@ -59,6 +59,23 @@ pub struct Case {
     /// fit and query in single precision (data, labels and queries are f32-representable)
     #[serde(default)]
     pub f32m: bool,
+    /// fault plan for the forest's own seeded generator (salt, boundary values per million draws): the same
+    /// plan for every twin of the run, so "same seed" still means "same stream" (seam S1b, rand::sim)
+    #[serde(default)]
+    pub std_fault: Option<(u64, u32)>,
+}
+
+/// installs the seeded-generator fault plan on the current thread for the lifetime of the guard
+struct StdPlanGuard(Option<rand::sim::StdFaultPlan>);
+impl StdPlanGuard {
+    fn install(plan: Option<(u64, u32)>) -> StdPlanGuard {
+        StdPlanGuard(rand::sim::set_std_fault_plan(plan.map(|(salt, per_million)| rand::sim::StdFaultPlan { salt, per_million })))
+    }
+}
+impl Drop for StdPlanGuard {
+    fn drop(&mut self) {
+        rand::sim::set_std_fault_plan(self.0);
+    }
 }
 
 pub struct C06;
@@ -101,6 +118,8 @@ struct FitOut {
     repeat_mismatch: Option<String>,
     calls: u64,
     words_consumed: Option<usize>,
+    /// boundary values the fault plan substituted into the forest's seeded generator during this fit
+    draw_faults: u64,
     value: Value,
     err: Option<String>,
 }
@@ -120,8 +139,10 @@ fn fit_once_t<T: RealNumber + Serialize + Send + 'static>(case: &Case, ambient: 
     q.extend(case.queries.iter().cloned());
     let qm: DenseMatrix<T> = mat_t(&q);
     let guard = ambient.as_ref().map(TapeGuard::install);
+    let _plan = StdPlanGuard::install(case.std_fault);
+    rand::sim::take_std_faults_fired();
     let p = &case.params;
-    let mut out = FitOut { bytes: vec![], pred: vec![], oob: None, alt: None, single: None, tall: None, repeat_mismatch: None, calls: 0, words_consumed: None, value: Value::Null, err: None };
+    let mut out = FitOut { bytes: vec![], pred: vec![], oob: None, alt: None, single: None, tall: None, repeat_mismatch: None, calls: 0, words_consumed: None, draw_faults: 0, value: Value::Null, err: None };
     let mut model_box: Option<Box<dyn std::any::Any + Send>> = None;
     if case.task == "clf" {
         let params = match case.ctor % 3 {
@@ -235,6 +256,7 @@ fn fit_once_t<T: RealNumber + Serialize + Send + 'static>(case: &Case, ambient: 
         out.words_consumed = guard.as_ref().map(|g| g.served());
     }
     drop(guard);
+    out.draw_faults = rand::sim::take_std_faults_fired();
     (out, model_box)
 }
 
@@ -478,6 +500,8 @@ impl C06 {
         d.u64(a.words_consumed.unwrap_or(0) as u64).u64(b.words_consumed.unwrap_or(0) as u64);
         rep.count("steps.forest_fits", 2);
         rep.count("steps.trees_fitted", 2 * pr.n_trees as u64);
+        rep.count("fault.seeded-draw-boundary-value", a.draw_faults + b.draw_faults);
+        rep.count("fault.seeded-draw-plan-installed", case.std_fault.is_some() as u64);
 
         if let Some(e) = &a.err {
             rep.fail("fit-failed", "forest-fit", format!("{}: {}", ctx, e));
@@ -788,7 +812,7 @@ fn gen_case(batch: &str, _index: u64, seed: u64) -> Case {
         let kcls = pr.usize_in(2, 4).min(n);
         // label values are arbitrary reals: also sets whose members share an integer part (0.25 / 0.75,
         // -0.5 / 0.5) and large or tiny magnitudes
-        let label_sets: [&[f64]; 9] = [
+        let label_sets: [&[f64]; 11] = [
             // two labels one ulp apart (0.3 and 0.1 + 0.2): still two classes
             &[0.3, 0.30000000000000004, 1.0, 2.0],
             &[0.0, 1.0, 2.0, 3.0],
@@ -799,9 +823,12 @@ fn gen_case(batch: &str, _index: u64, seed: u64) -> Case {
             &[0.25, 0.75, 1.0, 1.5],
             &[-0.5, 0.5, 0.1, 2.0],
             &[1e6, 1000000.5, -1e-3, 1e-3],
+            // fractional labels inside an exact 0..k-1 frame (a label is not its own index)
+            &[0.0, 0.5, 2.0, 3.0],
+            &[0.0, 1.5, 1.0, 3.0],
         ];
         // (the one-ulp-apart f64 labels would collapse in f32)
-        let ls = label_sets[if batch == "twins-f32" { 1 + pr.below(8) as usize } else { pr.below(9) as usize }];
+        let ls = label_sets[if batch == "twins-f32" { 1 + pr.below(10) as usize } else { pr.below(11) as usize }];
         let skew = pr.chance(0.4);
         let mut yy: Vec<f64> = (0..n)
             .map(|i| {
@@ -885,6 +912,7 @@ fn gen_case(batch: &str, _index: u64, seed: u64) -> Case {
     let tb = TapeSpec::prng(sc.u64());
     let (ambient_a, ambient_b, kind) = match batch {
         "twins-seeded" | "twins-clf" | "twins-reg" | "twins-f32" => (Some(ta), Some(tb), "ambient seeded / seeded-other"),
+        "twins-draw-faults" => (Some(ta), Some(tb), "ambient seeded / seeded-other, boundary values in the forest's own generator"),
         "twins-extreme" => {
             let mut e = tb;
             e.extreme_pm = *pr.pick(&[200u32, 1000]);
@@ -902,7 +930,10 @@ fn gen_case(batch: &str, _index: u64, seed: u64) -> Case {
         ops.push(pr.below(5) as u8);
     }
     pr.shuffle(&mut ops);
-    Case { task: task.into(), x, y, params, queries, ambient_a, ambient_b, pollute: pr.chance(0.5), ops, refit_same_thread: pr.chance(0.5), kind: kind.into(), ctor: pr.below(3) as u8, f32m }
+    let (pollute, refit_same_thread, ctor) = (pr.chance(0.5), pr.chance(0.5), pr.below(3) as u8);
+    // boundary values in the forest's own seeded generator: rates from "one or two per forest" to "a third of all draws"
+    let std_fault = if batch == "twins-draw-faults" { Some((sc.u64(), *pr.pick(&[300u32, 3000, 30_000, 150_000, 350_000]))) } else { None };
+    Case { task: task.into(), x, y, params, queries, ambient_a, ambient_b, pollute, ops, refit_same_thread, kind: kind.into(), ctor, f32m, std_fault }
 }
 
 impl Property for C06 {
@@ -917,6 +948,7 @@ impl Property for C06 {
             Batch { name: "twins-reg", count: if q { 10_000 } else { 500_000 }, simulated: true, exhaustive: false, note: "regressor twins, same protocol" },
             Batch { name: "twins-f32", count: if q { 5_000 } else { 250_000 }, simulated: true, exhaustive: false, note: "classifier and regressor twins in single precision" },
             Batch { name: "twins-extreme", count: if q { 5_000 } else { 250_000 }, simulated: true, exhaustive: false, note: "twin B's ambient RNG serves extreme words" },
+            Batch { name: "twins-draw-faults", count: if q { 6_000 } else { 300_000 }, simulated: true, exhaustive: false, note: "the forest's own seeded generator serves boundary values (0, 1, MAX, MAX-1, 2^k-1) at a seeded subset of its draws, identically for every twin: bootstrap samples and sub-seeds a ChaCha stream reaches with negligible probability" },
             Batch { name: "twins-none", count: if q { 5_000 } else { 250_000 }, simulated: true, exhaustive: false, note: "no simulator source installed for one or both twins (real OS-seeded ThreadRng)" },
         ]
     }
@@ -1000,6 +1032,16 @@ impl Property for C06 {
             let mut c = case.clone();
             c.refit_same_thread = false;
             push(c);
+        }
+        if let Some((salt, pm)) = case.std_fault {
+            let mut c = case.clone();
+            c.std_fault = None;
+            push(c);
+            if pm > 300 {
+                let mut c = case.clone();
+                c.std_fault = Some((salt, pm / 4));
+                push(c);
+            }
         }
         if case.ops.len() > 1 {
             for i in 0..case.ops.len() {
